@@ -84,6 +84,7 @@ type taskExpect struct {
 	stderr []byte
 	cmds   int
 	utf8   bool
+	fails  bool // the last command of the task exits with a non-zero status
 }
 
 // TestC19: task output is captured completely and attributed correctly.
@@ -92,7 +93,7 @@ func TestC19(t *testing.T) {
 	if os.Getenv("VERIF_TIER") == "thorough" {
 		maxLen = 8 << 20
 	}
-	col := ev.Get("C19", "output", "1-6 jobs x 1-4 tasks running at the same time through the real TaskRunner; each task has 1-4 commands, each 'vhelper emit <spec>' (a generated sequence of stdout/stderr chunks with pauses; sizes 0 B to 300 KB, 8 MB in the thorough tier; partial last lines; arbitrary bytes or valid UTF-8) or an interpreter builtin (echo/printf); every chunk starts with a (job,task,stream,#) marker; task names over letters/digits/_-. space and non-ASCII; oracle: FileOutputStore.Reader(job,task,stream) equals the concatenation, in order, of that task's chunks for that stream over all its commands, GET /job/logs returns the same as strings (UTF-8 tasks), a task the job does not have and an unknown job give 404; non-trivial = >=64 KiB on a stream or >=2 commands or both streams used, with >=2 tasks writing at once; distinct by (shape of the case)")
+	col := ev.Get("C19", "output", "1-6 jobs x 1-4 tasks running at the same time through the real TaskRunner; each task has 1-4 commands, each 'vhelper emit <spec>' (a generated sequence of stdout/stderr chunks with pauses; sizes 0 B to 300 KB, 8 MB in the thorough tier; partial last lines; arbitrary bytes or valid UTF-8) or an interpreter builtin (echo/printf); every chunk starts with a (job,task,stream,#) marker; task names over letters/digits/_-. space and non-ASCII; oracle: FileOutputStore.Reader(job,task,stream) equals the concatenation, in order, of that task's chunks for that stream over all its commands, GET /job/logs returns the same as strings (UTF-8 tasks), a task the job does not have and an unknown job give 404; a sixth of the tasks end with a failing command (their output up to it must still be complete) and half of the cases run a second round of the same jobs on the same store; non-trivial = >=64 KiB on a stream or >=2 commands or both streams used, with >=2 tasks writing at once; distinct by (shape of the case)")
 	vh := helper(t)
 	rapid.Check(t, func(rt *rapid.T) {
 		nJobs := rapid.IntRange(1, 6).Draw(rt, "nJobs")
@@ -100,12 +101,12 @@ func TestC19(t *testing.T) {
 		defer os.RemoveAll(specDir)
 		defs := &definition.PipelinesDef{Pipelines: definition.PipelinesMap{}}
 		expects := make([][]taskExpect, nJobs)
-		big, multiCmd, bothStreams := false, false, false
+		big, multiCmd, bothStreams, anyFails := false, false, false, false
 		writers := 0
 		for j := 0; j < nJobs; j++ {
 			nT := rapid.IntRange(1, 4).Draw(rt, "nTasks")
 			names := rapid.SliceOfNDistinct(taskNameGen, nT, nT, rapid.ID[string]).Draw(rt, "taskNames")
-			pd := definition.PipelineDef{Concurrency: 2, Tasks: map[string]definition.TaskDef{}, SourcePath: "gen"}
+			pd := definition.PipelineDef{Concurrency: 2, ContinueRunningTasksAfterFailure: true, Tasks: map[string]definition.TaskDef{}, SourcePath: "gen"}
 			for ti, tn := range names {
 				te := taskExpect{name: tn, utf8: rapid.IntRange(0, 3).Draw(rt, "utf8Task") > 0}
 				nCmd := rapid.IntRange(1, 4).Draw(rt, "nCommands")
@@ -142,6 +143,12 @@ func TestC19(t *testing.T) {
 						script = append(script, vh+" emit "+p)
 					}
 				}
+				if rapid.IntRange(0, 5).Draw(rt, "taskFails") == 0 {
+					// a failing task: everything written before the failing command still belongs to its log
+					te.fails = true
+					script = append(script, fmt.Sprintf("exit %d", rapid.IntRange(1, 9).Draw(rt, "exitCode")))
+					anyFails = true
+				}
 				te.cmds = nCmd
 				expects[j] = append(expects[j], te)
 				pd.Tasks[tn] = definition.TaskDef{Script: script}
@@ -160,73 +167,88 @@ func TestC19(t *testing.T) {
 		}
 		w := newRealWorld(rt, defs, 0)
 		defer w.close()
-		ids := make([]uuid.UUID, nJobs)
-		for j := 0; j < nJobs; j++ {
-			job, err := w.pr.ScheduleAsync(fmt.Sprintf("p%d", j), prunner.ScheduleOpts{})
-			if err != nil {
-				rt.Fatalf("schedule: %v", err)
-			}
-			ids[j] = job.ID
-		}
-		for j, id := range ids {
-			v, ok := w.waitDone(id, 120*time.Second)
-			if !ok || v.Canceled || v.LastError != "" {
-				rt.Fatalf("job %d did not complete successfully: finished=%v canceled=%v lastError=%q", j, ok, v.Canceled, v.LastError)
-			}
-		}
-		for j, id := range ids {
-			for ti, te := range expects[j] {
-				for _, st := range []struct {
-					name string
-					want []byte
-				}{{"stdout", te.stdout}, {"stderr", te.stderr}} {
-					got, err := w.readLog(id, te.name, st.name)
-					if err != nil {
-						rt.Fatalf("job %d task %d (%d commands): no %s in the log store", j, ti, te.cmds, st.name)
-					}
-					if !bytes.Equal(got, st.want) {
-						rt.Fatalf("job %d task %d (%d commands) %s: the log store returns %d bytes, the task wrote %d; first difference at offset %d; foreign marker present: %v", j, ti, te.cmds, st.name, len(got), len(st.want), firstDiff(got, st.want), foreignMarker(got, j, ti))
-					}
+		rounds := rapid.IntRange(1, 2).Draw(rt, "rounds")
+		for round := 0; round < rounds; round++ {
+			ids := make([]uuid.UUID, nJobs)
+			for j := 0; j < nJobs; j++ {
+				job, err := w.pr.ScheduleAsync(fmt.Sprintf("p%d", j), prunner.ScheduleOpts{})
+				if err != nil {
+					rt.Fatalf("schedule: %v", err)
 				}
-				code, body := w.get("/job/logs?id=" + id.String() + "&task=" + url.QueryEscape(te.name))
-				if code != 200 {
-					rt.Fatalf("job %d task %d: GET /job/logs -> %d", j, ti, code)
-				}
-				if te.utf8 && utf8.Valid(te.stdout) && utf8.Valid(te.stderr) {
-					var resp struct {
-						Stdout string `json:"stdout"`
-						Stderr string `json:"stderr"`
-					}
-					if err := json.Unmarshal(body, &resp); err != nil {
-						rt.Fatalf("job %d task %d: GET /job/logs does not decode: %v", j, ti, err)
-					}
-					if resp.Stdout != string(te.stdout) || resp.Stderr != string(te.stderr) {
-						rt.Fatalf("job %d task %d: GET /job/logs returns stdout %d / stderr %d bytes, the task wrote %d / %d (first difference at %d / %d)", j, ti, len(resp.Stdout), len(resp.Stderr), len(te.stdout), len(te.stderr), firstDiff([]byte(resp.Stdout), te.stdout), firstDiff([]byte(resp.Stderr), te.stderr))
-					}
-				}
+				ids[j] = job.ID
 			}
-			other := "no-such-task"
-			if j+1 < nJobs && len(expects[j+1]) > 0 {
-				// a task that exists, but in another job
-				other = expects[j+1][0].name
+			for j, id := range ids {
+				jobFails := false
 				for _, te := range expects[j] {
-					if te.name == other {
-						other = "no-such-task"
+					if te.fails {
+						jobFails = true
 					}
 				}
+				v, ok := w.waitDone(id, 120*time.Second)
+				if !ok || v.Canceled || (v.LastError != "") != jobFails {
+					rt.Fatalf("round %d job %d: finished=%v canceled=%v lastError=%q, a failing task was expected: %v", round, j, ok, v.Canceled, v.LastError, jobFails)
+				}
 			}
-			if code, _ := w.get("/job/logs?id=" + id.String() + "&task=" + url.QueryEscape(other)); code != 404 {
-				rt.Fatalf("GET /job/logs for a task the job does not have -> %d, want 404", code)
-			}
+			checkOutputs(rt, w, ids, expects, round)
 		}
 		if code, _ := w.get("/job/logs?id=" + uuid.Must(uuid.NewV4()).String() + "&task=x"); code != 404 {
 			rt.Fatalf("GET /job/logs for an unknown job -> %d, want 404", code)
 		}
 		nontrivial := (big || multiCmd || bothStreams) && writers >= 2
 		col.Add(fmt.Sprintf("%d/%d/%v/%v/%v/%v", nJobs, writers, big, multiCmd, bothStreams, expectsShape(expects)), nontrivial,
-			map[string]int{">=64KiB-on-a-stream": btoi(big), ">=2-commands": btoi(multiCmd), "both-streams": btoi(bothStreams), "writers>=2": btoi(writers >= 2), "writers>=6": btoi(writers >= 6)}, writers,
+			map[string]int{"failing-task": btoi(anyFails), "second-round-after-failure": btoi(anyFails && rounds == 2), "two-rounds": btoi(rounds == 2), ">=64KiB-on-a-stream": btoi(big), ">=2-commands": btoi(multiCmd), "both-streams": btoi(bothStreams), "writers>=2": btoi(writers >= 2), "writers>=6": btoi(writers >= 6)}, writers,
 			map[string]interface{}{"jobs": nJobs, "tasks_writing": writers, "shape": expectsShape(expects)})
 	})
+}
+
+// checkOutputs compares the log store and the log API with what every task of every job wrote.
+func checkOutputs(rt *rapid.T, w *realWorld, ids []uuid.UUID, expects [][]taskExpect, round int) {
+	nJobs := len(ids)
+	for j, id := range ids {
+		for ti, te := range expects[j] {
+			for _, st := range []struct {
+				name string
+				want []byte
+			}{{"stdout", te.stdout}, {"stderr", te.stderr}} {
+				got, err := w.readLog(id, te.name, st.name)
+				if err != nil {
+					rt.Fatalf("round %d job %d task %d (%d commands): no %s in the log store", round, j, ti, te.cmds, st.name)
+				}
+				if !bytes.Equal(got, st.want) {
+					rt.Fatalf("round %d job %d task %d (%d commands) %s: the log store returns %d bytes, the task wrote %d; first difference at offset %d; foreign marker present: %v", round, j, ti, te.cmds, st.name, len(got), len(st.want), firstDiff(got, st.want), foreignMarker(got, j, ti))
+				}
+			}
+			code, body := w.get("/job/logs?id=" + id.String() + "&task=" + url.QueryEscape(te.name))
+			if code != 200 {
+				rt.Fatalf("round %d job %d task %d: GET /job/logs -> %d", round, j, ti, code)
+			}
+			if te.utf8 && utf8.Valid(te.stdout) && utf8.Valid(te.stderr) {
+				var resp struct {
+					Stdout string `json:"stdout"`
+					Stderr string `json:"stderr"`
+				}
+				if err := json.Unmarshal(body, &resp); err != nil {
+					rt.Fatalf("round %d job %d task %d: GET /job/logs does not decode: %v", round, j, ti, err)
+				}
+				if resp.Stdout != string(te.stdout) || resp.Stderr != string(te.stderr) {
+					rt.Fatalf("round %d job %d task %d: GET /job/logs returns stdout %d / stderr %d bytes, the task wrote %d / %d (first difference at %d / %d)", round, j, ti, len(resp.Stdout), len(resp.Stderr), len(te.stdout), len(te.stderr), firstDiff([]byte(resp.Stdout), te.stdout), firstDiff([]byte(resp.Stderr), te.stderr))
+				}
+			}
+		}
+		other := "no-such-task"
+		if j+1 < nJobs && len(expects[j+1]) > 0 {
+			// a task that exists, but in another job
+			other = expects[j+1][0].name
+			for _, te := range expects[j] {
+				if te.name == other {
+					other = "no-such-task"
+				}
+			}
+		}
+		if code, _ := w.get("/job/logs?id=" + id.String() + "&task=" + url.QueryEscape(other)); code != 404 {
+			rt.Fatalf("GET /job/logs for a task the job does not have -> %d, want 404", code)
+		}
+	}
 }
 
 func expectsShape(e [][]taskExpect) string {
